@@ -26,8 +26,8 @@ def parseCase (line : String) : Option (Table × List Char) :=
     pure (es, cs)
   | _ => none
 
-def observe (implErr : Bool) (toks : Toks) (text : List Char) : String :=
-  if implErr || !validToks toks then "syntax-error" else s!"ok {encChars text}"
+def observe (toks : Toks) (text : List Char) : String :=
+  if !validToks toks then "syntax-error" else s!"ok {encChars text}"
 
 def runLine (line : String) : String :=
   match parseCase line with
@@ -36,6 +36,6 @@ def runLine (line : String) : String :=
     let (s, done) := run T (fuelFor T cs) (init cs)
     if !done then "FUEL\t-" else
     let h := substHand T cs
-    observe s.implErr s.toks.reverse s.text ++ "\t=" ++ observe false h.toks.reverse (substLine T cs)
+    observe s.toks.reverse s.text ++ "\t=" ++ observe h.toks.reverse (substLine T cs)
 
 def main : IO Unit := YashModel.Proto.mainLoop runLine
